@@ -456,7 +456,8 @@ class Runner:
         io.open = opener
         outcome = "ok"
         try:
-            with contextlib.redirect_stdout(sink), contextlib.redirect_stderr(sink):
+            with contextlib.redirect_stdout(sink), contextlib.redirect_stderr(sink), \
+                    core.NamedImports(_real_popen, popen), core.NamedImports(_real_io_open, opener):
                 if op["component"] == "config-git":
                     rc = nbmain.main_dispatch(["config-git"] + flags)
                 else:
